@@ -771,3 +771,118 @@ def int_constants(model: Model, module: str) -> Dict[str, int]:
         return vals
     out = load(module)
     return out
+
+
+# ---------------------------------------------------------------------------------
+# memoising decorators defined in the repository: is one store shared by several decorated functions?
+# ---------------------------------------------------------------------------------
+
+@dataclass
+class WrapperMemo:
+    decorator: str                 # qualified name of the decorator (factory)
+    storage: Tuple[str, str]       # ('instance', attribute name) | ('module', variable) | ('per-function', '')
+    key_text: str
+    key_has_function: bool
+    line: int
+    rel: str
+
+
+def wrapper_memo(model: Model, dec_qual: str) -> Optional[WrapperMemo]:
+    """The decorator (or decorator factory) dec_qual wraps a function `fn` in a closure that stores `fn(...)` results in a
+    container under a key: where the container lives and whether the key identifies `fn`.  None if the shape is not that."""
+    fi = model.funcs.get(dec_qual)
+    if fi is None:
+        return None
+    root = fi.node
+    parents: Dict[int, ast.AST] = {}
+    for n in ast.walk(root):
+        for c in ast.iter_child_nodes(n):
+            parents[id(c)] = n
+
+    def enclosing_funcs(n: ast.AST) -> List[ast.FunctionDef]:
+        out = []
+        while id(n) in parents:
+            n = parents[id(n)]
+            if isinstance(n, (ast.FunctionDef, ast.Lambda)):
+                out.append(n)
+        return out
+    for w in ast.walk(root):
+        if not isinstance(w, ast.FunctionDef) or w is root:
+            continue
+        encl = enclosing_funcs(w)
+        fn_param = None
+        fn_owner = None
+        for e in encl:
+            if not isinstance(e, ast.FunctionDef):
+                continue
+            for a in e.args.args:
+                if any(isinstance(c, ast.Call) and isinstance(c.func, ast.Name) and c.func.id == a.arg for c in ast.walk(w)):
+                    fn_param, fn_owner = a.arg, e
+        if fn_param is None:
+            continue
+        # stores  X[K] = ... fn(...) ...
+        for st in ast.walk(w):
+            if not isinstance(st, ast.Assign):
+                continue
+            if not any(isinstance(c, ast.Call) and isinstance(c.func, ast.Name) and c.func.id == fn_param for c in ast.walk(st.value)):
+                continue
+            for t in st.targets:
+                if isinstance(t, ast.Subscript) and isinstance(t.value, ast.Name):
+                    cname = t.value.id
+                    key = t.slice
+                    names = {n.id for n in ast.walk(key) if isinstance(n, ast.Name)}
+                    # one level of local definition of the key
+                    for d in ast.walk(w):
+                        if isinstance(d, ast.Assign) and any(isinstance(x, ast.Name) and x.id in names for x in d.targets):
+                            names |= {n.id for n in ast.walk(d.value) if isinstance(n, ast.Name)}
+                    has_fn = fn_param in names
+                    # where does the container come from?
+                    storage = None
+                    for d in ast.walk(w):
+                        if isinstance(d, ast.Assign) and any(isinstance(x, ast.Name) and x.id == cname for x in d.targets):
+                            v = d.value
+                            txt = core.src(v).replace(" ", "")
+                            m = re.match(r"(\w+)\.__dict__\.setdefault\(['\"](\w+)['\"],", txt) or re.match(r"getattr\((\w+),['\"](\w+)['\"]", txt) \
+                                or re.match(r"vars\((\w+)\)\.setdefault\(['\"](\w+)['\"],", txt)
+                            if m and w.args.args and m.group(1) == w.args.args[0].arg:
+                                storage = ("instance", m.group(2))
+                            elif isinstance(v, ast.Attribute) and isinstance(v.value, ast.Name) and w.args.args and v.value.id == w.args.args[0].arg:
+                                storage = ("instance", v.attr)
+                    if storage is None:
+                        # a variable of an enclosing function: per decorated function when it is created at or inside the function that receives fn
+                        for e in encl:
+                            if isinstance(e, ast.FunctionDef) and any(isinstance(d, ast.Assign) and any(isinstance(x, ast.Name) and x.id == cname for x in d.targets)
+                                                                       for d in e.body):
+                                storage = ("per-function", "") if (e is fn_owner or fn_owner in enclosing_funcs(e)) else ("per-decoration", "")
+                                break
+                    if storage is None and f"{fi.module}.{cname}" in model.module_vars:
+                        storage = ("module", f"{fi.module}.{cname}")
+                    if storage is None:
+                        continue
+                    return WrapperMemo(dec_qual, storage, core.src(key), has_fn, st.lineno, fi.rel)
+    return None
+
+
+def wrapper_memo_collisions(model: Model) -> List[Tuple[WrapperMemo, List[str]]]:
+    """groups of decorated functions that share one memo store whose key does not identify the function"""
+    groups: Dict[Tuple[str, str, str], List[str]] = {}
+    infos: Dict[str, Optional[WrapperMemo]] = {}
+    for fq, d in model.unknown_decorators():
+        fi = model.funcs[fq]
+        bd = model.scopes[fi.module].get(d.split(".")[0]) if "." not in d else model.resolve_expr_binding(ast.parse(d, mode="eval").body, fi.module)
+        if bd is None or bd.kind != "func":
+            continue
+        if bd.target not in infos:
+            infos[bd.target] = wrapper_memo(model, bd.target)
+        wm = infos[bd.target]
+        if wm is None or wm.key_has_function:
+            continue
+        if wm.storage[0] == "instance" and fi.cls:
+            groups.setdefault((bd.target, "instance", fi.cls), []).append(fq)
+        elif wm.storage[0] == "module":
+            groups.setdefault((bd.target, "module", wm.storage[1]), []).append(fq)
+    out = []
+    for (dq, kind, where), fqs in sorted(groups.items()):
+        if len(fqs) >= 2:
+            out.append((infos[dq], sorted(fqs)))
+    return out
